@@ -11,6 +11,7 @@ from .. import flowcheck
 from .. import floworacle as fo
 from .. import floworacle_r3 as f3
 from .. import floworacle_r4 as f4
+from .. import floworacle_r5 as f5
 
 LEAN_MODULES = ['Props.C05']
 TRUSTED = ['harness/flow_impl.py (yaml renderer, canonicaliser, virtual clock, scripted random.uniform)',
@@ -28,7 +29,8 @@ def run(env, res):
                 'None/0/\'\'/False/[]/{}, 12% with a malformed group body or sequence item, 35% written in another '
                 'yaml layout: flow style, JSON, first step on line 1, other indentation, single-quoted / plain / block scalars, anchors + aliases, merge keys; every 4th case runs with the root logger at DEBUG, every 8th at INFO, every 8th at NOTIFY - the log level is an input); a case is '
                 'non-trivial when the model accepts it and it terminates; distinct by canonical program text')
-    directed = [('c05-when-evaluated', f4.c05_when_family, env.n(170, 100000)),
+    directed = [('c04-value-forms', f5.c04_value_forms_loops, env.n(302, 100000)),
+                ('c05-when-evaluated', f4.c05_when_family, env.n(170, 100000)),
                 ('c05', fo.c05_family, env.n(400, 100000)), ('c05-edge', fo.c05_edge_family, env.n(57, 100000)),
                 ('c05-text', fo.c05_text_family, env.n(120, 100000)),
                 ('c03-restore-midloop', fo.c03_midloop_family, env.n(44, 100000)),
